@@ -21,14 +21,17 @@ PROPERTY = 'C02'
 LEVEL = 'exploration'
 RULE = ('Fold-balanced datasets: K conditions x M folds x R repetitions x P channels; rows in every '
         'order (all n! orders for n <= 6 rows, otherwise by-fold / by-condition / reversed / '
-        'interleaved / condition-major with folds reversed / every adjacent swap); condition labels '
+        'interleaved / condition-major with folds reversed / every adjacent swap (thorough: every '
+        'transposition); quick runs the 720 orders of the 6-row designs with P = 2 only); condition labels '
         '{unsorted ints, strings, one-character strings}, fold labels {unsorted ints, strings}; all M! '
         'fold relabelings x all P! channel permutations (precision permuted alike); precision {none, '
         'one SPD matrix, one SPD matrix per fold as list or 3-D array}; remove_mean; explicit fold '
         'descriptor or the default one (k-th occurrence of a condition = fold k; also with 10-12 '
         'folds); values: all vectors over {0,1,2} / {-1,0,1,2} / {0,1} for the tiny designs, fixed '
         'integer and generic fills from the seed otherwise. One evaluation = one real library call '
-        'judged per unordered label pair against the definition (probes: 4 resp. 2 calls). Distinct = '
+        'judged per unordered label pair against the definition (probes: linearity in the scale of '
+        'one fold = 4 calls, perturbation of one fold = 2 calls, the latter also over the whole '
+        'alphabet of the designs with <= 729 value vectors; single-informative-fold data must give 0). Distinct = '
         'distinct case descriptor; non-trivial = not (single channel and remove_mean), probe able '
         'to show the effect.')
 ASSUMPTIONS = [
@@ -43,6 +46,7 @@ TOLERANCES = {'value vs definition': TOL, 'invariance': TOL, 'second difference 
               'fold ignored: change below': 1e-12}
 BOUNDS = {
     'quick': {'K': [2, 3], 'M': [2, 3], 'R': [1, 2], 'P': [1, 2, 3], 'all_row_orders_upto_rows': 6,
+              'all_row_orders_of_6_row_designs_with_P': [2],
               'many_folds': [10, 11, 12], 'alphabets': ['{0,1,2}^4', '{-1,0,1,2}^4', '{0,1,2}^6', '{0,1,2}^8'],
               'fills': 2},
     'thorough': {'K': [2, 3, 4], 'M': [2, 3, 4], 'R': [1, 2], 'P': [1, 2, 3], 'all_row_orders_upto_rows': 6,
@@ -313,7 +317,7 @@ def run_shard(shard, ctx):
         M, P, clab = shard['M'], shard['P'], shard['clab']
         K, R = 2, 1
         so = _structured_orders(K, M, R)
-        for ci in (range(len(CFGS)) if thorough else (0, 4, 6)):
+        for ci in (0, 4, 6):
             cfg = CFGS[ci]
             for cv, flab in (('default', 'int'), ('explicit', 'int'), ('explicit', 'str')):
                 for oi, order in enumerate([so[0], so[1], so[2]]):
